@@ -8,6 +8,7 @@ import (
 	"strings"
 
 	"crverif/internal/an"
+	"crverif/internal/load"
 
 	"golang.org/x/tools/go/ssa"
 )
@@ -192,6 +193,7 @@ func runC19(c *Ctx) {
 
 	c19Close(c)
 	c19Table(c)
+	c19NoNestedLock(c)
 }
 
 // mapWritten reports whether the map value v (or a map/slice reached from it)
@@ -750,4 +752,54 @@ func c19Table(c *Ctx) {
 		c.R.Check(isC && uint64(k) == links["LinkDown"], "R-C19-5", c.fname(s.Fn)+":subscribes-LinkDown", c.fname(s.Fn), c.pos(s.Pos()),
 			"mask "+mask.String(), fmt.Sprintf("netstate.LinkDown (%d)", links["LinkDown"]), "advertisers would not be re-initialised on link down")
 	}
+}
+
+// c19NoNestedLock (R-C19-1, second clause): Watcher.mu is never acquired again
+// by a function called while it is held. A second RLock under a first one
+// deadlocks as soon as a writer (Subscribe) queues up between the two:
+// sync.RWMutex blocks new readers once a writer waits.
+func c19NoNestedLock(c *Ctx) {
+	acquires := func(fn *ssa.Function) bool {
+		for _, ci := range an.CallsIn(fn) {
+			f := an.CalleeObj(ci.Common())
+			if f == nil || (f.Name() != "Lock" && f.Name() != "RLock") || len(ci.Common().Args) == 0 {
+				continue
+			}
+			if fa, ok := ci.Common().Args[0].(*ssa.FieldAddr); ok && an.FieldAddrIs(fa, PkgNet, "Watcher", "mu") {
+				return true
+			}
+		}
+		return false
+	}
+	var holders []*ssa.Function
+	for _, fn := range c.srcFuncs() {
+		if fn.Pkg != nil && fn.Pkg.Pkg.Path() == PkgNet && acquires(fn) {
+			holders = append(holders, fn)
+		}
+	}
+	for _, h := range holders {
+		// everything h can call (itself excluded unless recursive)
+		var callees []*ssa.Function
+		for _, ci := range an.CallsIn(h) {
+			if g := an.StaticCallee(ci.Common()); g != nil && load.InModule(g) {
+				callees = append(callees, g)
+			}
+			for _, a := range ci.Common().Args {
+				if mc, ok := a.(*ssa.MakeClosure); ok {
+					callees = append(callees, mc.Fn.(*ssa.Function))
+				}
+			}
+		}
+		reach := an.ModuleReach(callees, load.InModule, nil)
+		nested := ""
+		for g := range reach {
+			if acquires(g) {
+				nested = c.fname(g)
+			}
+		}
+		c.R.Check(nested == "", "R-C19-1", c.fname(h)+":no-nested-acquisition-of-Watcher.mu", c.fname(h), c.pos(h.Pos()),
+			fmt.Sprintf("functions called while the lock is held that lock it again: %q", nested),
+			"a function holding Watcher.mu never calls one that acquires it", "recursive read lock: a Subscribe arriving during a notification deadlocks the watcher")
+	}
+	c.R.Check(len(holders) >= 3, "R-C19-1", "netstate:lock-holders", "", "", fmt.Sprintf("%d function(s) acquire Watcher.mu", len(holders)), ">= 3 (Subscribe, notify, close)", "anchor-missing")
 }
